@@ -24,8 +24,12 @@ correspondence check (harness/props/c17.py), which runs the same definitions at 
   `SolveCDF` docstring and keeps `Q = C_od q̇`; `cdf_diag_eq_unc`: with zero off-diagonal damping the
   whole history is `SolveUnc`'s.
 
-Not proved (measured by the oracle's step-halving and boundedness studies): global convergence, stability
-for full matrices.  Floating-point round-off is outside these statements.
+Continued in `Props/C17Conv.lean` (global convergence of the scalar scheme: `newmark_converges_scalar`),
+`Props/C17Stab.lean` (energy-method stability for scalar and FULL matrices, modal reduction, massless rows) and
+`Props/C17Cdf.lean` (`alpha`, and the cd-as-force step as `SolveUnc`'s step for the interpolated damping force).
+Still not proved (measured by the step-halving correspondence / oracle): convergence for coupled matrices, of the
+velocities / accelerations, with nonlinear terms, and of SolveCDF to the coupled solution.  Floating-point
+round-off is outside these statements.
 -/
 namespace PyYetiVerif.C17
 open PyYetiVerif.Newmark PyYetiVerif.Cdf
